@@ -40,7 +40,7 @@ impl Prop for C04 {
         400
     }
     fn cases(&self, t: Tier) -> usize {
-        t.pick(150_000, 5_000_000)
+        t.pick(300_000, 5_000_000)
     }
     fn generate(&self, t: &mut Tape) -> Case {
         let spelling = take_spelling(t, 40);
